@@ -12,6 +12,29 @@ CLAIMED = {
        "DESIGN.md §2.3 (fmt::format, Error::msg, anyhow drop, Rc::drop_slow), num-bigint behind its documented boundary. "
        "Outside: strings longer than the bound, num-bigint internals.",
   design="§4 C09"),
+ "C08": dict(
+  text="Bounded model checking of the typed decoder on directly constructed decoder state: for each expected Rust type in the "
+       "menu and each wire type in the menu (one concrete wire type per query for options, all 17 primitive wire types "
+       "symbolically for primitives/text), all value bytes inside the stated length and all quota configurations are "
+       "decided by the solver against a reference decoder + coercion table written from the spec. The 'agrees with untyped "
+       "decoding' half is represented by that reference, not by running IDLValue.",
+  note="Trusted: Kani/CBMC/CaDiCaL; the cut list of DESIGN §2.3 (incl. trace_type_with_depth guarded cut, binread debug-template "
+       "no-ops, From<io::Error> payload cut, pooled Type construction); Outside: header/type-table parsing, principals, "
+       "references, enums (binread value readers), IDLValue, std containers with many entries, inputs beyond the stated lengths.",
+  design="§4 C08"),
+ "C06": dict(
+  text="Every C08/C09 decoder harness runs with Kani's default checks on (no panic/unwrap/unreachable, no arithmetic or shift "
+       "overflow under debug semantics, no out-of-bounds index or slice, no invalid pointer use) plus 'cursor <= input length', "
+       "over all value bytes within the bound, all wire types in the menu and all quota configurations.",
+  note="As C08. Outside: the header parser, the untyped decoder, principals/references/enums, stack exhaustion, allocation volume, "
+       "termination proportional to quota, inputs longer than the stated bounds, release-only behaviour.",
+  design="§4 C06"),
+ "C07": dict(
+  text="Inside the same decoder harnesses the decoding and skipping quotas are symbolic: a metered run never returns a different "
+       "value than the reference, every materialised or skipped value is charged at least one unit (zero-sized values included), "
+       "skipped data is charged to the skipping quota, and the charge stays within the documented model plus a small constant.",
+  note="As C08. Outside: header cost, references, vectors beyond the stated element counts, untyped decoding.",
+  design="§4 C07"),
 }
 
 NA = {
@@ -69,6 +92,6 @@ def main():
     }
     json.dump(m, open(os.path.join(ROOT, "MANIFEST.json"), "w"), indent=1)
 
-HOOK_COMMITS = []
+HOOK_COMMITS = ["8d450e4"]
 if __name__ == "__main__":
     main()
